@@ -186,14 +186,15 @@ def run(ctx):
     # charts built around history: the parent of a history state is left and re-entered several times
     s3 = suite(ctx, "genc-history", gen(rng, 120 if quick else 4000, p_history=0.9, p_loop=0.5, p_multi=0.1))
     s4 = suite(ctx, "genc-history-revisit", E.history_revisit_cases(rng, 60 if quick else 2000))
+    s5 = suite(ctx, "genc-parallel-done", E.parallel_done_cases(rng, 50 if quick else 1500))
     ex = [(c, e) for c, e in E.exhaustive_cases("quick" if quick else "thorough")]
     if quick: ex = rng.sample(ex, min(len(ex), 160))
     s2 = suite(ctx, "genc-exhaustive", ex)
     ctx.sample({"suite": "genc-random"})
-    ctx.coverage["evaluations"] = s1["inputs"] + s2["inputs"] + s3["inputs"] + s4["inputs"]
+    ctx.coverage["evaluations"] = s1["inputs"] + s2["inputs"] + s3["inputs"] + s4["inputs"] + s5["inputs"]
     ctx.coverage["distinct_nontrivial"] = s1["agree"] + s2["agree"]
     ctx.coverage["rule"] = ("random charts of 3-12 states (parallel, history, <initial>, finals, internal/targetless/multi-target/eventless transitions, raise/send/log/if in every kind of block; "
-                            "no failing elements; on charts in the interpreter's recorded history findings a machine that follows Appendix D instead of the interpreter counts as right; a history-heavy family with longer event histories) x 0-5 external events, and the exhaustive small-chart family; "
+                            "no failing elements; on charts in the interpreter's recorded history findings a machine that follows Appendix D instead of the interpreter counts as right; a history-heavy family with longer event histories; a family of parallels whose regions (with or without history children) all reach their final states, optionally interrupted and resumed through a history) x 0-5 external events, and the exhaustive small-chart family; "
                             "each emitted machine compiled with gcc -fsanitize=address,undefined and run; non-trivial = machines whose whole trace agrees")
     ctx.assumptions += ["the callbacks are this check's (gen/cdriver.c: null datamodel, W3C descriptor matching); the reference scaffold test-gen-c.cpp is exercised by C12 only",
                         "executable content that fails, datamodels, invoke and delayed send are outside the compared fragment",
